@@ -79,6 +79,22 @@ pub fn verify_batch_circuit_from_extension_opened_arity4<EF: FoldX>(circuit: &mu
 /// the parent index bits of a phase: the index bits above the ones consumed so far and this phase's in-group bits, zero-padded to the folded height
 pub open spec fn parent_bits<F: Field>(bits: Seq<F>, start: int, lfh: int, lmh: int) -> Seq<F> { Seq::new(lfh as nat, |t: int| if start + t < lmh { bits[start + t] } else { F::fzero() }) }
 pub open spec fn row_v<F: Field>(fv: F, sib: Seq<F>, bits: Seq<F>) -> Seq<F> { Seq::new(p2(bits.len() as int) as nat, |j: int| placed(fv, sib, le_index(bits), j)) }
+/// index of the first entry equal to h (= the length when there is none): `iter().position(|&x| x == h)`
+pub open spec fn first_at(s: Seq<usize>, h: usize) -> int decreases s.len() {
+    if s.len() == 0 { 0 } else if s[0] == h { 0 } else { 1 + first_at(s.subrange(1, s.len() as int), h) }
+}
+pub proof fn lemma_first_at(s: Seq<usize>, h: usize, k: int)
+    requires 0 <= k < s.len(), forall|j: int| 0 <= j < k ==> s[j] != h
+    ensures s[k] == h ==> first_at(s, h) == k, s[k] != h ==> first_at(s, h) > k
+    decreases k
+{
+    if k > 0 { let t = s.subrange(1, s.len() as int); assert forall|j: int| 0 <= j < k - 1 implies t[j] != h by { assert(t[j] == s[j + 1]); } lemma_first_at(t, h, k - 1); assert(t[k - 1] == s[k]); }
+    else { if s[0] != h { lemma_first_at_nonneg(s.subrange(1, s.len() as int), h); } }
+}
+pub proof fn lemma_first_at_nonneg(s: Seq<usize>, h: usize) ensures 0 <= first_at(s, h) <= s.len() decreases s.len() { if s.len() > 0 && s[0] != h { lemma_first_at_nonneg(s.subrange(1, s.len() as int), h); } }
+pub proof fn lemma_first_at_none(s: Seq<usize>, h: usize) requires forall|j: int| 0 <= j < s.len() ==> s[j] != h ensures first_at(s, h) == s.len() decreases s.len() {
+    if s.len() > 0 { let t = s.subrange(1, s.len() as int); assert forall|j: int| 0 <= j < t.len() implies t[j] != h by { assert(t[j] == s[j + 1]); } lemma_first_at_none(t, h); }
+}
 pub open spec fn opt_val<F: Field>(cb: &CircuitBuilder<F>, o: Option<ExprId>) -> Option<F> { match o { Some(r) => Some(cb.val(r)), None => None } }
 } // verus!
 '''
@@ -117,6 +133,18 @@ def unmap_err_q(f):
         n += 1
     if n:
         f.rewrites.append(('R6', f'{n}x `let X = RECV.map_err(|e| BODY)?;` -> match with early return (RECV, BODY verbatim)', ''))
+    return f
+
+
+def unposition(f):
+    """R6: `let NAME = VEC.iter().position(|&x| COND);` -> first-match loop: `let mut found_pos_ = None; for pos_ in 0..VEC.len() { let x = VEC[pos_]; if found_pos_.is_none() && (COND) { found_pos_ = Some(pos_); } } let NAME = found_pos_;`"""
+    m = re.search(r'let (\w+) = (\w+)\.iter\(\)\.position\(\|&(\w+)\|\s*([^;]*?)\);', f.body)
+    if not m:
+        return f
+    name, vec, x, cond = m.group(1), m.group(2), m.group(3), m.group(4).strip()
+    new = (f'let mut found_pos_: Option<usize> = None; for pos_ in 0..{vec}.len() {{ let {x} = {vec}[pos_]; if found_pos_.is_none() && ({cond}) {{ found_pos_ = Some(pos_); }} }} let {name} = found_pos_;')
+    f.body = f.body[:m.start()] + new + f.body[m.end():]
+    f.rewrites.append(('R6', '`VEC.iter().position(|&x| COND)` -> first-match loop (COND verbatim)', ''))
     return f
 
 
@@ -241,7 +269,38 @@ def build():
             ('padded', '''parent_index_bits@.len() <= log_folded_height || parent_index_bits@.len() == parent_bit_end - parent_bit_start'''),
             ('prefix', 'parent_index_bits@.len() >= parent_bit_end - parent_bit_start && b2.has(zero) && b2.val(zero) == EF::fzero() && forall|t: int| 0 <= t < parent_index_bits@.len() && t < log_folded_height ==> b2.has(#[trigger] parent_index_bits@[t]) && b2.val(parent_index_bits@[t]) == pb[t]'),
         ], decreases='log_folded_height - parent_index_bits@.len()')
-    u.text('verus! {')
+
+    # ------------------------------------------------------------------ verify_fri_circuit[roll_in_step]: one reduced opening below the top height
+    r = u.extract(V, '', 'verify_fri_circuit', 'verify_fri_circuit[roll_in_step]')
+    slice_loop_body(r, r'for &\(h, ro\) in reduced_by_height\.iter\(\)\.skip\(1\)\s*\{',
+                    'the loop distributing the reduced openings of the lower heights over the phases (everything else: see commit_phase_step)')
+    common(r)
+    r.set_sig('R11', 'fn verify_fri_circuit<EF: FoldX>(builder: &mut CircuitBuilder<EF>, h: usize, ro: Target, folded_height_after: &Vec<usize>, roll_ins: &mut Vec<Option<Target>>) -> Result<(), VerificationError>', sliced=True)
+    r.erase_error_messages('VerificationError::InvalidProofShape')
+    unposition(r)
+    r.rewrite_re('R11', r'\bEF::ZERO\b', 'EF::zero()', min_count=0)
+    r.body = r.body[:r.body.rstrip().rfind('}')] + '\n Ok(()) }'
+    r.rewrites.append(('R13', 'the slice returns Ok(()) at the end of the loop body', ''))
+    r.attr('#[verifier::loop_isolation(false)]')
+    r.requires('shape', 'old(roll_ins)@.len() == folded_height_after@.len() && old(builder).has(ro)')
+    FIRST = 'first_at(folded_height_after@, h)'
+    r.ensures('frame', 'final(builder).extends(old(builder)) && final(roll_ins)@.len() == old(roll_ins)@.len()')
+    r.ensures('a_height_matching_a_phase_rolls_into_the_first_such_phase_exactly_once', f'''{FIRST} < folded_height_after@.len() ==> ({{ let i = {FIRST};
+            (ret is Ok <==> old(roll_ins)@[i] is None) && final(builder).sat@ == old(builder).sat@
+            && (ret is Ok ==> final(roll_ins)@ == old(roll_ins)@.update(i, Some(ro))) }})''')
+    r.ensures('a_height_matching_no_phase_must_open_to_zero', f'''{FIRST} >= folded_height_after@.len() ==> ret is Ok && final(roll_ins)@ == old(roll_ins)@
+            && final(builder).sat@ == (old(builder).sat@ && old(builder).val(ro) == EF::fzero())''')
+    r.ensures('errors_are_invalid_proof_shape', 'ret matches Err(e) ==> e is InvalidProofShape')
+    if 'for pos_ in 0..folded_height_after.len()' in r.body:
+        lo = r._loop_open('for pos_ in 0..folded_height_after.len()')
+        r.body = r.body[:lo + 1] + ' let ghost found_b = found_pos_; ' + r.body[lo + 1:]
+        r.at_loop_end('for pos_ in 0..folded_height_after.len()', 'proof { if found_b is None { lemma_first_at(folded_height_after@, h, pos_ as int); } }')
+        r.before('let phase_idx = found_pos_;', 'proof { if found_pos_ is None { lemma_first_at_none(folded_height_after@, h); } }')
+        r.loop('for pos_ in 0..folded_height_after.len()', invariants=[
+            ('first_match', '''(found_pos_ matches Some(i) ==> i < pos_ && i == first_at(folded_height_after@, h)) && (found_pos_ is None ==> forall|j: int| 0 <= j < pos_ ==> folded_height_after@[j] != h)''')])
+    u.text('verus! { mod commit_phase_step { use super::*;')
     u.emit(f)
-    u.text('}')
+    u.text('} mod roll_in_step { use super::*;')
+    u.emit(r)
+    u.text('} }')
     return u
